@@ -560,6 +560,55 @@ func checkDecoderPanicsAndLoops(p *core.Program, r *core.Report) {
 	r.Min("loops in decoder functions", 20)
 	r.Count("loops in decoder functions", nLoops)
 
+	// single-value type assertions inside the decoder closure: a client-controlled dynamic type must never be
+	// asserted without comma-ok (that panics). Accepted: the registry idioms.
+	nAssert := 0
+	for f := range reach {
+		if f.Blocks == nil || !core.IsRepo(f) {
+			continue
+		}
+		core.EachInstr(f, func(in ssa.Instruction) {
+			ta, ok := in.(*ssa.TypeAssert)
+			if !ok || ta.CommaOk {
+				return
+			}
+			nAssert++
+			key := fmt.Sprintf("no-unchecked-assertion/%s/%s", fname(f), types.TypeString(ta.AssertedType, func(p *types.Package) string { return p.Name() }))
+			rule := "inside the decoders a dynamic type that depends on input is only asserted with comma-ok; single-value assertions are limited to the registry idioms (a value freshly created by reflect.New for a registered type, a block value behind a type code lookup, an error returned through reflection)"
+			x := ta.X
+			okIdiom, why := false, ""
+			switch {
+			case pathEndsWith(x, "Value"):
+				okIdiom, why = true, "CanonicalBlock.Value behind a block type lookup (registry invariant: type code <-> Go type)"
+			case core.DependsOn(x, func(v ssa.Value) bool {
+				c, ok := v.(*ssa.Call)
+				return ok && (core.CalleeName(c) == "reflect.Value.Interface" || core.CalleeName(c) == "reflect.New")
+			}):
+				okIdiom, why = true, "value created through reflection for a registered type"
+			case core.DependsOn(x, func(v ssa.Value) bool {
+				c, ok := v.(*ssa.Call)
+				return ok && (core.CalleeName(c) == "sync.Map.Load" || core.CalleeName(c) == "sync.Map.LoadOrStore")
+			}):
+				okIdiom, why = true, "value stored by this package in its own sync.Map"
+			default:
+				// guarded by a preceding comma-ok assertion / type switch on the same value
+				for _, c := range core.DominatingConds(ta.Block()) {
+					if ex, ok := c.V.(*ssa.Extract); ok && c.True {
+						if t2, ok := ex.Tuple.(*ssa.TypeAssert); ok && (t2.X == x || core.SameLoad(t2.X, x)) && types.Identical(t2.AssertedType, ta.AssertedType) {
+							okIdiom, why = true, "dominated by a comma-ok assertion of the same value"
+						}
+					}
+				}
+			}
+			if okIdiom {
+				r.OK(key, rule, p.Pos(ta.Pos()), why)
+			} else {
+				r.Fail(key, rule, p.Pos(ta.Pos()), "single-value type assertion on "+valStr(x)+" in a function reachable from the decoders")
+			}
+		})
+	}
+	r.Analysed["decoder_single_value_assertions"] = nAssert
+
 	// inventory: unchecked type assertions on registry-created values
 	nTA := 0
 	for _, fn := range p.RepoFuncs() {
